@@ -105,6 +105,16 @@ impl Scenario for OnlyRules {
   }
 }
 
+/// Thorough tier: one case in three is drawn with doubled size bounds (longer
+/// scripts, more inner observables / tasks) - returns the multiplier.
+pub fn deepen(rng: &mut Rng, tier: Tier) -> usize {
+  if tier == Tier::Thorough && rng.chance(1, 3) {
+    2
+  } else {
+    1
+  }
+}
+
 pub struct PropertyCheck {
   pub id: &'static str,
   pub scenarios: Vec<Box<dyn Scenario>>,
